@@ -4,7 +4,7 @@
     so the quantification over [sched : list nat] covers every interleaving of any number of
     threads calling any keys. [m0] is what is memoized beforehand (cold / warm store). *)
 From Coq Require Import List Arith Bool ZArith.
-From Memento Require Import Storage.Cache Storage.CacheProofs Gen.SourceFacts Gen.FactsOK.
+From Memento Require Import Storage.Cache Storage.CacheProofs Gen.SourceFacts Gen.FactsThreads.
 From Memento Require Import Runner.Threads Runner.ThreadsProofs.
 Import ListNotations.
 Open Scope nat_scope.
